@@ -4,11 +4,217 @@ From RV Require Import Lib.Hex Model.CmdGrammar.
 Import ListNotations.
 Local Open Scope bool_scope.
 
-Definition names (t : list (bytes * rule)) : list bytes := map fst t.
+(* ------------------------------------------------------------------ byte strings *)
+Lemma bytes_eqb_refl a : bytes_eqb a a = true.
+Proof. induction a; cbn; [reflexivity|]. now rewrite N.eqb_refl. Qed.
+Lemma bytes_eqb_eq a b : bytes_eqb a b = true <-> a = b.
+Proof.
+  split; [|intros ->; apply bytes_eqb_refl].
+  revert b; induction a as [|x a IH]; destruct b as [|y b]; cbn; try discriminate; auto.
+  intros H. apply andb_true_iff in H as [H1 H2]. apply N.eqb_eq in H1. f_equal; auto.
+Qed.
+Lemma bytes_eqb_neq a b : bytes_eqb a b = false <-> a <> b.
+Proof.
+  split.
+  - intros H E. apply bytes_eqb_eq in E. congruence.
+  - intros H. destruct (bytes_eqb a b) eqn:E; [|reflexivity]. apply bytes_eqb_eq in E. contradiction.
+Qed.
+
+(* ------------------------------------------------------------------ the table is a function *)
+Definition names {A} (t : list (bytes * A)) : list bytes := map fst t.
 Fixpoint nodupb (l : list bytes) : bool :=
   match l with
   | [] => true
   | x :: r => negb (existsb (bytes_eqb x) r) && nodupb r
   end.
+Lemma nodupb_NoDup l : nodupb l = true -> NoDup l.
+Proof.
+  induction l as [|x r IH]; cbn; intros H; constructor.
+  - apply andb_true_iff in H as [H _]. apply negb_true_iff in H.
+    intros HI. assert (existsb (bytes_eqb x) r = true); [|congruence].
+    apply existsb_exists. exists x. split; [assumption|apply bytes_eqb_refl].
+  - apply andb_true_iff in H as [_ H]. auto.
+Qed.
+
 Lemma grammar_names_distinct : nodupb (names grammar) = true.
 Proof. vm_compute. reflexivity. Qed.
+Lemma subtables_names_distinct :
+  forallb (fun t => nodupb (names t))
+          [config_tbl; acl_tbl; script_tbl; function_tbl; client_tbl; object_tbl; debug_tbl] = true.
+Proof. vm_compute. reflexivity. Qed.
+
+Lemma lookup_In {A} n (t : list (bytes * A)) r : lookup n t = Some r -> In (n, r) t.
+Proof.
+  induction t as [|[m a] t IH]; cbn; [discriminate|].
+  destruct (bytes_eqb n m) eqn:E.
+  - intros [= ->]. apply bytes_eqb_eq in E. subst. now left.
+  - intros H. right. auto.
+Qed.
+Lemma lookup_None {A} n (t : list (bytes * A)) : lookup n t = None <-> ~ In n (names t).
+Proof.
+  induction t as [|[m a] t IH]; cbn.
+  - split; auto.
+  - destruct (bytes_eqb n m) eqn:E.
+    + apply bytes_eqb_eq in E. subst. split; [discriminate|]. intros H. exfalso. apply H. now left.
+    + apply bytes_eqb_neq in E. rewrite IH. split.
+      * intros H [H1|H1]; [congruence|auto].
+      * intros H H1. apply H. now right.
+Qed.
+Lemma lookup_unique {A} n (t : list (bytes * A)) r :
+  NoDup (names t) -> In (n, r) t -> lookup n t = Some r.
+Proof.
+  induction t as [|[m a] t IH]; cbn; [contradiction|].
+  intros ND [H|H].
+  - injection H as -> ->. now rewrite bytes_eqb_refl.
+  - inversion ND as [|? ? Hn ND']; subst.
+    destruct (bytes_eqb n m) eqn:E.
+    + apply bytes_eqb_eq in E. subst. exfalso. apply Hn.
+      change m with (fst (m, r)). now apply in_map.
+    + auto.
+Qed.
+Lemma grammar_lookup n r : In (n, r) grammar -> lookup n grammar = Some r.
+Proof. apply lookup_unique, nodupb_NoDup, grammar_names_distinct. Qed.
+
+Local Opaque grammar.
+
+(* the grammar read as a relation: "some row named like the frame's first element yields r" *)
+Definition parses (f : option (list relem)) (r : presult) : Prop :=
+  match f with
+  | Some (EBulk n :: args) =>
+      (exists rl, In (ustr n, rl) grammar /\ r = run_rule rl args)
+      \/ (~ In (ustr n) (names grammar) /\ r = unknown_cmd (ustr n))
+  | _ => r = PErr E_FORMAT
+  end.
+Lemma parses_parse_frame f : parses f (parse_frame f).
+Proof.
+  destruct f as [[|[n| |] args]|]; cbn; try reflexivity.
+  destruct (lookup (ustr n) grammar) eqn:E.
+  - left. exists r. split; [now apply lookup_In|reflexivity].
+  - right. split; [now apply lookup_None|reflexivity].
+Qed.
+Lemma parses_functional f r : parses f r -> r = parse_frame f.
+Proof.
+  destruct f as [[|[n| |] args]|]; cbn; try (intros ->; reflexivity).
+  intros [[rl [HI ->]]|[HN ->]].
+  - now rewrite (grammar_lookup _ _ HI).
+  - apply lookup_None in HN. now rewrite HN.
+Qed.
+Theorem parse_deterministic f r1 r2 : parses f r1 -> parses f r2 -> r1 = r2.
+Proof. intros H1 H2. apply parses_functional in H1, H2. congruence. Qed.
+
+(* ------------------------------------------------------------------ arity *)
+Theorem arity_error n rl args name :
+  In (name, rl) grammar -> ustr n = name -> arity_ok rl (List.length args) = false ->
+  parse_frame (Some (EBulk n :: args)) = PErr (arity_text rl).
+Proof.
+  intros HI <- HA. cbn. rewrite (grammar_lookup _ _ HI). unfold run_rule. now rewrite HA.
+Qed.
+
+(* ------------------------------------------------------------------ letter case *)
+Definition ascii (b : bytes) : Prop := Forall (fun x => (x < 128)%N) b.
+Definition case_variant (a b : bytes) : Prop := Forall2 (fun x y => up1 x = up1 y) a b.
+
+Lemma width_ascii x : (x < 128)%N -> width x = 1%nat.
+Proof. intros H. unfold width. apply N.ltb_lt in H. now rewrite H. Qed.
+Lemma lossy_ascii b : ascii b -> lossy b = b.
+Proof.
+  induction 1 as [|x r Hx Hr IH]; [reflexivity|].
+  cbn [lossy]. rewrite (width_ascii _ Hx). now rewrite IH.
+Qed.
+Lemma upper_ascii b : ascii b -> upper b = map up1 b.
+Proof.
+  induction 1 as [|x r Hx Hr IH]; [reflexivity|].
+  cbn [upper map]. destruct r as [|y r1].
+  - reflexivity.
+  - assert (E1 : (x =? 195)%N = false) by (apply N.eqb_neq; lia).
+    assert (E2 : (x =? 196)%N = false) by (apply N.eqb_neq; lia).
+    assert (E3 : (x =? 197)%N = false) by (apply N.eqb_neq; lia).
+    assert (E4 : (x =? 239)%N = false) by (apply N.eqb_neq; lia).
+    rewrite E1, E2, E3, E4. cbn [andb]. now rewrite IH.
+Qed.
+Lemma ustr_ascii b : ascii b -> ustr b = map up1 b.
+Proof. intros H. unfold ustr. rewrite (lossy_ascii _ H). now apply upper_ascii. Qed.
+Lemma up1_lt x : (x < 128)%N -> forall y, up1 x = up1 y -> (y < 128)%N.
+Proof.
+  intros Hx y. unfold up1.
+  destruct ((97 <=? x) && (x <=? 122))%N eqn:E1; destruct ((97 <=? y) && (y <=? 122))%N eqn:E2;
+    repeat match goal with
+           | H : (_ && _)%bool = true |- _ => apply andb_true_iff in H as [? ?]
+           | H : (_ <=? _)%N = true |- _ => apply N.leb_le in H
+           end; lia.
+Qed.
+Lemma case_variant_ascii a b : case_variant a b -> ascii a -> ascii b.
+Proof.
+  induction 1 as [|x y a b Hxy _ IH]; intros Ha; [constructor|].
+  inversion Ha as [|? ? Hx Ha']; subst. constructor.
+  - exact (up1_lt x Hx y Hxy).
+  - exact (IH Ha').
+Qed.
+Lemma case_variant_map a b : case_variant a b -> map up1 a = map up1 b.
+Proof. induction 1; cbn; congruence. Qed.
+Lemma ustr_case_variant a b : ascii a -> case_variant a b -> ustr a = ustr b.
+Proof.
+  intros Ha H. rewrite (ustr_ascii _ Ha), (ustr_ascii _ (case_variant_ascii _ _ H Ha)).
+  now apply case_variant_map.
+Qed.
+Theorem name_case_insensitive n n' args :
+  ascii n -> case_variant n n' ->
+  parse_frame (Some (EBulk n :: args)) = parse_frame (Some (EBulk n' :: args)).
+Proof. intros Ha H. cbn. now rewrite (ustr_case_variant _ _ Ha H). Qed.
+(* more generally the outcome depends on the name only through its upper-cased decoding,
+   which also identifies the non-ASCII spellings that str::to_uppercase maps to ASCII *)
+Theorem name_only_through_ustr n n' args :
+  ustr n = ustr n' ->
+  parse_frame (Some (EBulk n :: args)) = parse_frame (Some (EBulk n' :: args)).
+Proof. intros H. cbn. now rewrite H. Qed.
+
+(* ------------------------------------------------------------------ the Lua bridge *)
+Theorem lua_parse_eq_parse n rest :
+  lua_supported (ustr n) = true -> lua_parse (n :: rest) = parse_cmd (n :: rest).
+Proof. intros H. unfold lua_parse. now rewrite H. Qed.
+Theorem lua_parse_refuses n rest :
+  lua_supported (ustr n) = false ->
+  lua_parse (n :: rest) = PErr (tx "ERR Unknown Redis command '" ++ ustr n ++ tx "' called from Lua").
+Proof. intros H. unfold lua_parse. now rewrite H. Qed.
+Lemma lua_commands_in_grammar :
+  forallb (fun n => match lookup n grammar with Some _ => true | None => false end) lua_commands = true.
+Proof. vm_compute. reflexivity. Qed.
+
+(* both entry paths run the same executor on the same parsed command *)
+Section Script.
+  Variable state : Type.
+  Variable exec : state -> cmd -> state * resp.
+  Definition conv (r : resp) : resp := lua_to_resp (resp_to_lua r).
+  Definition err_reply (t : bytes) : resp := RError (sanitize t).
+  Definition direct_call (s : state) (parts : list bytes) : state * resp :=
+    match parse_cmd parts with
+    | POk c => exec s c
+    | PErr t => (s, err_reply t)
+    | PPanic => (s, err_reply [])
+    end.
+  (* EVAL "return redis.pcall(...)": translate, execute, convert to Lua, convert the script's
+     return value back *)
+  Definition script_call (s : state) (parts : list bytes) : state * resp :=
+    match lua_parse parts with
+    | POk c => let '(s', r) := exec s c in (s', conv r)
+    | PErr t => (s, conv (RError t))
+    | PPanic => (s, err_reply [])
+    end.
+  Theorem script_call_eq_direct s n rest :
+    lua_supported (ustr n) = true ->
+    (forall t, parse_cmd (n :: rest) = PErr t -> lossy t = t) ->
+    parse_cmd (n :: rest) <> PPanic ->
+    script_call s (n :: rest) =
+      (fst (direct_call s (n :: rest)),
+       match parse_cmd (n :: rest) with
+       | POk _ => conv (snd (direct_call s (n :: rest)))
+       | _ => snd (direct_call s (n :: rest))
+       end).
+  Proof.
+    intros H HU HP. unfold script_call, direct_call. rewrite (lua_parse_eq_parse _ _ H).
+    destruct (parse_cmd (n :: rest)) as [c|t|] eqn:E.
+    - destruct (exec s c). reflexivity.
+    - cbn. unfold conv, err_reply. cbn. rewrite (HU t eq_refl), bytes_eqb_refl. reflexivity.
+    - contradiction.
+  Qed.
+End Script.
